@@ -106,6 +106,7 @@ type Exec struct {
 	ipdomDone  bool
 	retCover bool
 	atWild   map[string][]Clause // wildcard call-site assertions, expanded per site
+	errType  types.Type          // the type error (for conditional tolerance)
 	// inlining of small helpers without a contract (call.go inlineCall)
 	rootFn      *ssa.Function    // the function under verification while a helper is being executed
 	rootCon     *Contract        // its contract
